@@ -71,3 +71,52 @@ def contexts(prog):
 
 def helper_calls(ctxs):
     return {c.via.bb for c in ctxs if c.via is not None}
+
+
+class VSite:
+    """a call performed inside a private helper, seen at the helper's call site (arguments substituted)"""
+    def __init__(self, cs, name, args):
+        self.bb, self.line, self.term, self.args = cs.bb, cs.line, cs.term, args
+        self.callee = type("C", (), {"name": name, "key": staticmethod(lambda: name), "local": True})()
+
+
+def tail_helpers(prog):
+    """same-trait helpers that finish a branch: exactly one conjoin_implied, then exactly one pop, on every path, and no
+    decide (`fn pop_implied(&self, sat, decided, sub)`): {npath: (helper, its conjoin_implied call)}"""
+    from . import canon  # noqa: F401
+    out = {}
+    for h in prog.lib_fns:
+        if h.in_trait != TRAIT or h.kind == "Closure" or h.name in ("topdown_h", "conjoin_implied") or \
+                not any(b["term"]["k"] == "call" for b in h.blocks):
+            continue
+        te = h.terms
+        if any(is_decide(c) for c in te.calls):
+            continue
+        pops = [c for c in te.calls if c.callee.name == "pop" and "SATSolver" in c.callee.key()]
+        conj = [c for c in te.calls if c.callee.name == "conjoin_implied"]
+        if len(pops) != 1 or len(conj) != 1:
+            continue
+        p, c = pops[0], conj[0]
+        cfg = h.cfg
+        if any(p.bb in body or c.bb in body for body in cfg.loop_headers.values()):
+            continue
+        if not (cfg.dominates(c.bb, p.bb) and all(cfg.dominates(p.bb, r) for r in cfg.returns)):
+            continue
+        out[h.npath] = (h, c)
+    return out
+
+
+def tail_sites(prog, fn):
+    """(call sites in fn of tail helpers, the conjoin_implied they perform with the call's arguments substituted)"""
+    from . import canon
+    th = tail_helpers(prog)
+    out = []
+    for cs in fn.terms.calls:
+        if not (cs.callee.local or getattr(cs.callee, "res_local", False)):
+            continue
+        for h in prog.resolve(cs.callee):
+            if h.npath in th and h is not fn:
+                _h, c = th[h.npath]
+                sub = {i + 1: a for i, a in enumerate(cs.args)}
+                out.append((cs, VSite(cs, "conjoin_implied", tuple(canon.subst(a, sub) for a in c.args))))
+    return out
